@@ -13,7 +13,7 @@ import shutil
 from vlib import core
 
 THEOREMS = ["C05_merge_keys", "C05_select", "C05_conflicts", "C05_unused", "C05_spec", "C05_cross", "C05_cross_pass1", "C05_select_forms",
-            "C05_static_select", "C05_static_select_level", "C05_static_other_args",
+            "C05_static_select", "C05_static_select_level", "C05_static_other_args", "C05_unused_project",
             "C05_old_refuted", "C05_lone_other_refuted", "C05_panic_old_refuted"]
 PROPS = "theories/Props/C05.v"
 REGISTRY = {
@@ -534,6 +534,140 @@ def run_static(ctx, exe, rt):
     return res
 
 
+# ---------------------------------------------------------------- UnusedForm warnings of whole projects
+
+def gen_unused_tree(rng, depth=0):
+    """skeleton shared by all locales: plural bases (with a rule type) and sub-objects"""
+    tree = []
+    for base in rng.sample(["a", "b", "item", "x9", "n"], rng.choice([2, 3, 4])):
+        tree.append(("plural", base, rng.choice(["cardinal", "cardinal", "ordinal"])))
+    if depth < 2:
+        for name in rng.sample(["s1", "s2"], rng.choice([0, 1, 2] if depth == 0 else [0, 1])):
+            tree.append(("sub", name, gen_unused_tree(rng, depth + 1)))
+    return tree
+
+
+def realize_unused_tree(rng, tree, ids, is_default):
+    """one locale's version of the skeleton: its own form subsets (possibly `_other` alone), some keys absent"""
+    lvl = {"k": ("leaf", ids())}
+    for e in tree:
+        if e[0] == "sub":
+            lvl[e[1]] = ("sub", ids(), realize_unused_tree(rng, e[2], ids, is_default))
+            continue
+        _, base, rule = e
+        if rng.random() < 0.15:
+            continue                                    # not declared by this locale (maybe first declared by a later one)
+        if rng.random() < 0.1:
+            rule = "ordinal" if rule == "cardinal" else "cardinal"
+        mask = rng.choice([0, 0, rng.randrange(32), rng.randrange(32), rng.randrange(32), 31])
+        for f in [f for b, f in enumerate(FORMS[:5]) if mask >> b & 1] + ["other"]:
+            lvl[base + ("_ordinal" if rule == "ordinal" else "") + "_" + f] = ("leaf", ids())
+    return lvl
+
+
+def unused_levels(lvl, path, out):
+    out.append((path, lvl))
+    for name, v in lvl.items():
+        if v[0] == "sub":
+            unused_levels(v[2], path + [name], out)
+
+
+def run_unused(ctx, exe, cats):
+    """multi-locale projects (same plural keys in several locales with different unused forms, nested, namespaces, lone
+    `_other`): the UnusedForm warnings of LocalesOrNamespaces::merge_plurals and of the whole parse_locales pipeline must be,
+    for every locale and level, exactly expected_warnings of the model (check_unused, Coq)"""
+    rng = ctx.rng
+    n = 12 if ctx.quick else 120
+    root = os.path.join(ctx.work, "unused_%d" % os.getpid())
+    shutil.rmtree(root, ignore_errors=True)
+    projects, dirs = [], []
+    for k in range(n):
+        ids = Ids()
+        locs = rng.sample(LOCALES, rng.choice([3, 4, 8]))
+        nss = ["ns1", "ns2"] if rng.random() < 0.3 else [None]
+        trees = {ns: gen_unused_tree(rng) for ns in nss}
+        data = {ns: {l: realize_unused_tree(rng, trees[ns], ids, j == 0) for j, l in enumerate(locs)} for ns in nss}
+        if k == 0:                                      # corpus: the witness of the "first locale only" defect
+            locs, nss = ["en", "fr", "ja"], [None]
+            L = lambda i: ("leaf", i)
+            data = {None: {"en": {"x_one": L(1), "x_other": L(2)},
+                           "fr": {"x_one": L(3), "x_few": L(4), "x_other": L(5), "y_ordinal_two": L(6), "y_ordinal_other": L(7)},
+                           "ja": {"x_one": L(8), "x_other": L(9), "y_ordinal_other": L(10)}}}
+        d = os.path.join(root, "u%d" % k)
+        os.makedirs(os.path.join(d, "locales"))
+        with open(os.path.join(d, "Cargo.toml"), "w") as fh:
+            fh.write('[package]\nname = "p"\nversion = "0.1.0"\nedition = "2021"\n\n[package.metadata.leptos-i18n]\n'
+                     'default = "%s"\nlocales = [%s]\n%s' % (locs[0], ", ".join('"%s"' % l for l in locs),
+                                                            'namespaces = ["ns1", "ns2"]\n' if nss[0] else ""))
+        for l in locs:
+            for ns in nss:
+                content = {kk: json_value(v) for kk, v in data[ns][l].items()}
+                if ns:
+                    os.makedirs(os.path.join(d, "locales", l), exist_ok=True)
+                    fn = os.path.join(d, "locales", l, ns + ".json")
+                else:
+                    fn = os.path.join(d, "locales", l + ".json")
+                with open(fn, "w") as fh:
+                    json.dump(content, fh)
+        projects.append((locs, nss, data))
+        dirs.append(d)
+    rc, out, err = core.sh([exe, "parse"], input="".join(d + "\n" for d in dirs), timeout=900)
+    lines = out.splitlines()
+    if rc != 0 or len(lines) != len(dirs):
+        raise core.Infra("h_plurals parse (unused): %d lines for %d projects; %s" % (len(lines), len(dirs), err[-400:]))
+    res = {"cases": 0, "fail": [], "disagree": [], "problems": [], "warnings_seen": 0, "unattributed": []}
+    items, meta = [], []
+    def names_tree(lvl):
+        return {k: (names_tree(v[2]) if v[0] == "sub" else None) for k, v in lvl.items()}
+
+    for pi, ((locs, nss, data), line) in enumerate(zip(projects, lines)):
+        o = json.loads(line)
+        pm, pipe = o.get("project_merge"), o.get("pipeline")
+        if not (isinstance(pm, dict) and "ok" in pm and isinstance(pipe, dict) and "ok" in pipe):
+            res["problems"].append({"locales": locs, "namespaces": nss, "project_merge": pm if not isinstance(pm, dict) or "ok" not in pm else "ok",
+                                    "pipeline": pipe if not isinstance(pipe, dict) or "ok" not in pipe else "ok"})
+            continue
+        wm = [w for w in pm.get("warnings", []) if w[0] == "UnusedForm"]
+        wp = [w for w in o.get("warnings", []) if w[0] == "UnusedForm"]
+        res["warnings_seen"] += len(wm) + len(wp)
+        known_levels = set()
+        for ns in nss:
+            for l in locs:
+                lv = []
+                unused_levels(data[ns][l], [ns + "::"] if ns else [], lv)
+                for path, lvl in lv:
+                    known_levels.add((l, tuple(path)))
+                    names = sorted(lvl.keys(), key=lambda x: x.encode())
+                    keys = core.coq_list(["(%s, %s)" % (core.coq_str(nm), coq_ival(lvl[nm])) for nm in names])
+
+                    def sel(ws):
+                        return core.coq_list(["(%s, %s, %s)" % (coq_path(w[2]), COQ_FORM[w[3]], COQ_RULE[w[4]])
+                                              for w in ws if w[1] == l and w[2][:-1] == path])
+                    items.append("(mk_ucase %s %s %s %s %s %s)" % (
+                        coq_path(path), core.coq_list([COQ_FORM[f] for f in cats[l]["c"]]),
+                        core.coq_list([COQ_FORM[f] for f in cats[l]["o"]]), keys, sel(wm), sel(wp)))
+                    meta.append({"_pi": pi, "locale": l, "locales_of_project": locs, "default": locs[0], "namespace": ns, "path": path,
+                                 "keys": names,
+                                 "unused_warnings_of_merge_plurals": [w[2:] for w in wm if w[1] == l and w[2][:-1] == path],
+                                 "unused_warnings_of_parse_locales": [w[2:] for w in wp if w[1] == l and w[2][:-1] == path]})
+        for w in wm + wp:
+            if (w[1], tuple(w[2][:-1])) not in known_levels:
+                res["unattributed"].append(w)
+    codes = core.coq_eval(ctx, "c05u_%d" % os.getpid(), PRE, items, "check_unused", min_per_shard=20)
+    res["cases"] = len(items)
+    for m, it, c in zip(meta, items, codes):
+        locs, nss, data = projects[m["_pi"]]
+        if c in (2, 3):
+            m = dict(m, project={"locales": locs, "namespaces": nss,
+                                 "keys": {str(ns): {l: names_tree(data[ns][l]) for l in locs} for ns in nss}})
+        if c == 3:
+            res["fail"].append(m)
+        elif c == 2:
+            res["disagree"].append(m)
+    shutil.rmtree(root, ignore_errors=True)
+    return res
+
+
 # ---------------------------------------------------------------- cross-locale (lone `_other`)
 
 def cross_projects(ctx):
@@ -676,6 +810,9 @@ def run(ctx):
     rc, out, err = core.sh([exe, "rt"], timeout=600)
     stres = run_static(ctx, exe, parse_rt(out))
 
+    # ---------------- UnusedForm warnings of whole projects
+    unres = run_unused(ctx, exe, cats)
+
     # ---------------- verdict
     def report_spec(name, inputs, explanation, klass):
         kf = next((f for f in known if f.get("class") == klass), None)
@@ -706,6 +843,15 @@ def run(ctx):
                     "a locale that writes only `<key>_other` (all CLDR gives e.g. Japanese) is not merged into the plural key "
                     "other locales define: MissingKey `<key>` + SurplusKey `<key>_other`, and the locale renders the default "
                     "locale's text", "lone-other")
+    if unres["fail"] or unres["unattributed"]:
+        unres["fail"].sort(key=lambda m: (len(m["locales_of_project"]), len(m["keys"])))
+        first = (unres["fail"] or [{"unattributed_warning": unres["unattributed"][0]}])[0]
+        core.violation(ctx, "unused_project", {
+            "failing_input": first, "more": unres["fail"][1:3], "count": len(unres["fail"]),
+            "unattributed_warnings": unres["unattributed"][:3],
+            "explanation": "for this locale and level the UnusedForm warnings of the whole-project paths (LocalesOrNamespaces::"
+                           "merge_plurals / parse_locales) are not exactly `written form (not _other) of a merged key that is not a "
+                           "CLDR category of THIS locale for the key's rule type`: a warning is missing, extra or repeated"})
     if stres["fail"]:
         stres["fail"].sort(key=lambda m: (len(m["written_forms"]), m["locale"]))
         core.violation(ctx, "static_select", {"failing_input": stres["fail"][0], "more": stres["fail"][1:3], "count": len(stres["fail"]),
@@ -732,6 +878,10 @@ def run(ctx):
         corr.append("panic not predicted by the model")
     if shape_problems:
         corr.append("parsed tree does not have the generated shape")
+    if unres["disagree"]:
+        corr.append("correspondence Parser/Plurals.v (project_warnings) vs the UnusedForm warnings of whole projects")
+    if unres["problems"]:
+        corr.append("a generated multi-locale project did not load: %s" % json.dumps(unres["problems"][0])[:400])
     if stres["disagree"]:
         corr.append("correspondence Parser/Plurals.v (populate_with_count_arg) vs parse-time plural selection")
     if stres["pipeline_problems"]:
@@ -763,8 +913,8 @@ def run(ctx):
         else:
             outcome[impl_err["kind"] if impl_err["kind"] in outcome else "other_err"] += 1
     core.write_evidence(ctx, {
-        "evaluations": len(acc) + len(citems) + rtres["rt_cases"] + 16 + stres["cases"],
-        "distinct_nontrivial": len(nontrivial) + rtres["rt_cases"] + stres["cases"],
+        "evaluations": len(acc) + len(citems) + rtres["rt_cases"] + 16 + stres["cases"] + unres["cases"],
+        "distinct_nontrivial": len(nontrivial) + rtres["rt_cases"] + stres["cases"] + unres["cases"],
         "rule": "parser level: random key maps per locale level (bases x cardinal/ordinal x random form subsets, collisions, "
                 "range/sub-object values, nested levels), corpus first; non-trivial = level with >= 2 plural-shaped keys, "
                 "distinct by Coq case term. runtime level: fixed project, every (locale, key, accessor) row of counts is one "
@@ -772,6 +922,8 @@ def run(ctx):
         "samples": [dict(m, code=c) for m, c in list(zip(metas, codes))[:3] + list(zip(metas, codes))[13:15]],
         "parser_level_cases": len(acc), "locales_merged": len(locale_results), "locale_outcomes": outcome,
         "runtime_renderings": rtres["renderings"], "icu_table_entries_compared_with_CldrRules": rtres["table_entries"],
+        "unused_project_cases": unres["cases"], "unused_project_failures": len(unres["fail"]),
+        "unused_project_disagreements": len(unres["disagree"]), "unused_project_warnings_seen": unres["warnings_seen"],
         "static_selection_cases": stres["cases"], "static_selection_references": stres["references"],
         "static_selection_failures": len(stres["fail"]), "static_selection_disagreements": len(stres["disagree"]),
         "static_count_arg_failures": len(stres["other_args_fail"]),
@@ -802,7 +954,7 @@ def replay(ctx, path):
     bindir = core.cargo_build("h_plurals")
     exe = os.path.join(bindir, "h_plurals")
     root = os.path.join(ctx.work, "replay_%d" % os.getpid())
-    if "keys" in fi and "locale" in fi:                    # one level of one locale
+    if isinstance(fi.get("keys"), dict) and "locale" in fi:   # one level of one locale
         lvl = {n: tuple(v) for n, v in fi["keys"].items()}
         for n, v in lvl.items():
             if v[0] == "sub":
@@ -853,6 +1005,61 @@ def replay(ctx, path):
         print("MODEL merge_project:", core.coq_show(ctx, PRE, "merge_project (fun _ => true) (fun _ => all_forms) %s" % core.coq_list(lv)))
         code = core.coq_eval(ctx, "replayx_%d" % os.getpid(), PRE, ["(%s, (@nil str), %s)" % (core.coq_list(lv), outs)], "check_cross", min_per_shard=1)[0]
         print("VERDICT code %d (0 agree+spec, 2 differs from model, 3/4 spec_cross false on the implementation's output)" % code)
+        return 1 if code != 0 else 0
+    if "unused_warnings_of_merge_plurals" in fi:              # UnusedForm warnings of a whole project
+        pr = fi["project"]
+        ids = Ids()
+
+        def build(t):
+            return {k: (("sub", ids(), build(v)) if isinstance(v, dict) else ("leaf", ids())) for k, v in t.items()}
+        shutil.rmtree(root, ignore_errors=True)
+        os.makedirs(os.path.join(root, "locales"))
+        nss = pr["namespaces"]
+        with open(os.path.join(root, "Cargo.toml"), "w") as fh:
+            fh.write('[package]\nname = "p"\nversion = "0.1.0"\nedition = "2021"\n\n[package.metadata.leptos-i18n]\n'
+                     'default = "%s"\nlocales = [%s]\n%s' % (pr["locales"][0], ", ".join('"%s"' % l for l in pr["locales"]),
+                                                            'namespaces = [%s]\n' % ", ".join('"%s"' % n for n in nss) if nss[0] else ""))
+        lvl_of = {}
+        for ns in nss:
+            for l in pr["locales"]:
+                lvl = build(pr["keys"][str(ns)][l])
+                lvl_of[(ns, l)] = lvl
+                content = {kk: json_value(v) for kk, v in lvl.items()}
+                if ns:
+                    os.makedirs(os.path.join(root, "locales", l), exist_ok=True)
+                    fn = os.path.join(root, "locales", l, ns + ".json")
+                else:
+                    fn = os.path.join(root, "locales", l + ".json")
+                json.dump(content, open(fn, "w"))
+        rc, out, err = core.sh([exe, "parse"], input=root + "\n", timeout=120)
+        o = json.loads(out.splitlines()[0])
+        pm = o.get("project_merge")
+        wm = [w for w in (pm.get("warnings", []) if isinstance(pm, dict) else []) if w[0] == "UnusedForm"]
+        wp = [w for w in o.get("warnings", []) if w[0] == "UnusedForm"]
+        print("IMPLEMENTATION UnusedForm warnings of LocalesOrNamespaces::merge_plurals:", json.dumps([w[1:] for w in wm]))
+        print("IMPLEMENTATION UnusedForm warnings of parse_locales:", json.dumps([w[1:] for w in wp]))
+        rc, out2, err = core.sh([exe, "rt"], timeout=600)
+        cats = {}
+        for line in out2.split("\n"):
+            if line.startswith("C "):
+                _, l, r, body = line.split(" ", 3)
+                cats.setdefault(l, {})[r] = body.split(",")
+        l, ns, path = fi["locale"], fi["namespace"], fi["path"]
+        lvl = lvl_of[(ns, l)]
+        for name in path[(1 if ns else 0):]:
+            lvl = lvl[name][2]
+        names = sorted(lvl.keys(), key=lambda x: x.encode())
+        keys = core.coq_list(["(%s, %s)" % (core.coq_str(nm), coq_ival(lvl[nm])) for nm in names])
+
+        def sel(ws):
+            return core.coq_list(["(%s, %s, %s)" % (coq_path(w[2]), COQ_FORM[w[3]], COQ_RULE[w[4]]) for w in ws if w[1] == l and w[2][:-1] == path])
+        item = "(mk_ucase %s %s %s %s %s %s)" % (coq_path(path), core.coq_list([COQ_FORM[f] for f in cats[l]["c"]]),
+                                                 core.coq_list([COQ_FORM[f] for f in cats[l]["o"]]), keys, sel(wm), sel(wp))
+        print("locale %s, level %s, keys %s" % (l, path, names))
+        print("MODEL expected_warnings:", core.coq_show(ctx, PRE, "let c := %s in expected_warnings (fun r => match r with Cardinal => "
+              "u_cats_card c | Ordinal => u_cats_ord c end) (u_path c) (u_keys c)" % item))
+        code = core.coq_eval(ctx, "replayu_%d" % os.getpid(), PRE, [item], "check_unused", min_per_shard=1)[0]
+        print("VERDICT code %d (0 exact, 2 differs from model, 3 a warning is missing, extra or repeated)" % code)
         return 1 if code != 0 else 0
     if "final_value_ids" in fi:                              # parse-time selection of `$t(key, {"count": N})`
         loc, pk, r = fi["locale"], fi["plural_key"], fi["rule"]
